@@ -5,17 +5,21 @@ From FIM Require Import Base.Str Gen.DelegGen Model.Deleg12 Model.Pools12
      Proofs.Deleg12Enc Proofs.Deleg12Pools Proofs.Deleg12Regroup Proofs.Deleg12Annotate.
 Import ListNotations.
 
+(* the decoder, entry by entry: exactly the three shapes of the format get as far as the constructors *)
 Lemma from_json_rejects_ill_formed : forall lc ty,
   (forall doc ds, from_json lc ty doc = Ok ds ->
-                  forall k j, In (k, j) doc -> exists d, entry_of_json lc ty k j = Ok d) /\
+                  forall k j, In (k, j) doc -> entry_clean ty j = true /\ exists d, entry_of_json lc ty k j = Ok d) /\
   (forall id j, j_pool_id j = None -> j_pool j = None -> entry_of_json lc ty id j = Err EDelegation) /\
-  (forall id j p, j_pool_id j = Some p -> (match ty with TCap => j_caps j | TLab => j_labs j end) = None ->
+  (forall id j p, j_pool_id j = Some p -> (match ty with TCap => j_labs j | TLab => j_caps j end) = None ->
+                  (match ty with TCap => j_caps j | TLab => j_labs j end) = None ->
                   entry_of_json lc ty id j = Err EKey) /\
-  (forall id j p dd e, j_pool_id j = Some p -> (match ty with TCap => j_caps j | TLab => j_labs j end) = Some dd ->
+  (forall id j p dd e, j_pool_id j = Some p -> (match ty with TCap => j_labs j | TLab => j_caps j end) = None ->
+                       (match ty with TCap => j_caps j | TLab => j_labs j end) = Some dd ->
                        first_error lc ty dd = Some e -> entry_of_json lc ty id j = Err e).
 Proof.
-  intros lc ty. split; [apply from_json_entries|]. split; [apply entry_no_pool_key|].
-  split; [apply entry_missing_details|apply entry_bad_details].
+  intros lc ty. split.
+  - intros doc ds H k j HI. split; [eapply from_json_clean; eassumption|eapply from_json_entries; eassumption].
+  - split; [apply entry_no_pool_key|]. split; [apply entry_missing_details|apply entry_bad_details].
 Qed.
 
 Lemma index_complete : forall ty P, forallb (pool_ok ty) P = true ->
@@ -71,3 +75,9 @@ Definition ex_single : gmap :=
 Definition ex_conflict : list pool :=
   [ mkP TLab (S"pool1") (Some (S"del1")) (Some (S"node1")) [S"node2"] (Some (ex_labs (S"1-100")));
     mkP TLab (S"pool2") (Some (S"del1")) (Some (S"node2")) [S"node3"] (Some (ex_labs (S"101-200"))) ].
+
+(* ex_ds as the API builds it: every delegation is new_deleg followed by set_details attempts *)
+Definition ex_api_items : list deleg :=
+  [ fold_left set_try [ex_labs (S"1-100")] (mkD TLab (S"del1") FSingle None None);
+    fold_left set_try [ex_labs (S"101-200")] (mkD TLab (S"del2") FDef (Some (S"pool1")) None);
+    fold_left set_try [ex_labs (S"5-6")] (mkD TLab (S"del3") FRef (Some (S"pool1")) None) ].
